@@ -43,6 +43,8 @@ def gen_listener_script(rng, event, fault, hostile, excs):
             script.append({'a': 'noset'})
         elif r < fault + 0.25:
             script.append({'a': 'set', 'v': [pick_value(rng, hostile), pick_value(rng, hostile)]})
+        elif event in ('callRangeValue', 'callCellValue') and rng.random() < 0.3:
+            script.append({'a': 'table'})
         elif event == 'callRangeValue' and rng.random() < 0.7:
             script.append({'a': 'set', 'v': [rng.choice(V.POOL_CONTAINERS)]})
         elif event == 'callFunction' and rng.random() < 0.6:
